@@ -201,7 +201,7 @@ class HWorld:
         elif wh:
             wh = {unhx(x) for x in wh}
         self.db.arm(
-            fail_set=(int(fw[0]), bool(fw[1])) if fw else None,
+            fail_set=(int(fw[0]), bool(fw[1]), fw[2] if len(fw) > 2 else "E") if fw else None,
             fail_del=(int(fd[0]), bool(fd[1])) if fd else None,
             withhold=wh,
         )
